@@ -1,0 +1,20 @@
+//go:build verif
+
+package reload
+
+import (
+	"context"
+	"time"
+)
+
+// VerifEventWatcher is the injectable filesystem event source of the watch loop.
+type VerifEventWatcher = eventWatcher
+
+// VerifDebounce is the debounce duration of the watch loop.
+const VerifDebounce = debounceDuration
+
+// VerifWatch is watchWithOptions with an injected event watcher and reconcile interval.
+func VerifWatch(ctx context.Context, path string, cb func() error, reconcileInterval time.Duration,
+	newWatcher func(dir string) (VerifEventWatcher, error)) error {
+	return watchWithOptions(ctx, path, cb, watchOptions{reconcileInterval: reconcileInterval, newWatcher: newWatcher})
+}
